@@ -10,7 +10,9 @@ storage. Ops (fields separated by `,`; node id `0` is the local node; lists join
 * `c,<p>,<i|o>`                     peer `p` connects (inbound / outbound)
 * `d,<p>`                           peer `p` disconnects
 * `a,<p>,<node>,<n|i|r>,<repo>,<ts>,<sigOk>,<payload>`   `p` delivers an announcement; payload: inventory
-                                    rids (`i`), refs non-empty `0/1` (`r`), SEED feature `0/1` (`n`)
+                                    rids (`i`), refs non-empty `0/1` (`r`), SEED feature `0/1` (`n`);
+                                    `<sigOk>` = `1` genuine, `0` signed with another key, `r<k>` forged with
+                                    the signature bytes of the genuine announcement of op number `k`
 * `s,<p>,<filter>,<since>,<until>`  `p` subscribes; filter `*` (all ones) or rids
 * `e,<dt>`                          `clock += dt; wake()`
 * `k,<t>`                           `Service::tick(t)`
@@ -47,7 +49,8 @@ def parseOp (tok : String) : Option Op :=
   | ["d", p] => (nat? p).map .disconnect
   | ["a", p, node, k, repo, ts, sig, payload] => do
     let p ← nat? p; let node ← nat? node; let k ← kind? k; let repo ← nat? repo
-    let ts ← nat? ts; let sig ← bool? sig
+    -- `r<op>`: forged by re-using the signature of the genuine announcement of op `<op>`: `verify()` fails
+    let ts ← nat? ts; let sig ← (if sig.startsWith "r" then some false else bool? sig)
     match k with
     | .inv =>
       if repo != 0 then none else
@@ -85,6 +88,28 @@ def parseOp (tok : String) : Option Op :=
     let own ← (if oid == "-" then some none else (nat? oid).map (fun o => some (o, ctime)))
     some (.setRepo { rid, present, priv, delegates := dels, allow, ownRefs := own })
   | _ => none
+
+/-- The op whose signature a forged announcement re-uses (`sig` field `r<op>`). -/
+def sigRef? (tok : String) : Option Nat :=
+  match splitOn tok ',' with
+  | ["a", _, _, _, _, _, sig, _] => if sig.startsWith "r" then nat? (sig.drop 1).toString else none
+  | _ => none
+
+def sameAnn (a b : Ann) : Bool :=
+  a.id == b.id && a.inv == b.inv && a.refsNonEmpty == b.refsNonEmpty && a.seedFeature == b.seedFeature
+
+/-- A re-used signature must come from a genuine announcement of the case with a different message
+(otherwise it verifies). -/
+def refsOk (toks : List String) (ops : List Op) : Bool :=
+  (toks.zip ops).all (fun (tok, op) =>
+    if (splitOn tok ',').length == 8 && ((splitOn tok ',').getD 6 "").startsWith "r" then
+      match sigRef? tok, op with
+      | some k, .recv _ a =>
+        (match ops[k]? with
+         | some (.recv _ g) => g.sigOk && !sameAnn a g
+         | _ => false)
+      | _, _ => false
+    else true)
 
 /-- Environment preconditions the harness guarantees (the harness answers `bad-case` otherwise):
 peers are not the local node; a peer connects only when it has no session; the raw clock stays above
@@ -163,7 +188,7 @@ def runGossip (args : List String) : String :=
   | t0 :: rel :: ops =>
     match nat? t0, bool? rel, ops.mapM parseOp with
     | some t0, some rel, some ops =>
-      if t0 < GOSSIP_MAX_AGE || t0 > 1125899906842624 then "bad-op"
+      if t0 < GOSSIP_MAX_AGE || t0 > 1125899906842624 || !refsOk (args.drop 2) ops then "bad-op"
       else match go (init t0 rel) 0 ops [] with
         | some outs => if outs.isEmpty then "-" else joinWith "|" outs
         | none => "bad-op"
